@@ -29,8 +29,8 @@ ASSUMPTIONS = [
     "dict key order inside an item is not compared",
     "rename onto a key that already exists in some item (a collision) is not judged",
 ]
-REACH = {"quick": {"op:tail": 300, "op:insert": 300, "op:sort": 500, "op:unique": 300, "op:filter": 500, "op:mul": 200, "op:slice": 300, "chain>=3": 2000,
-                   "tail:n=0": 30, "insert:at-or-past-end": 60, "insert:negative": 60, "sort:none-present": 150, "len:0": 200}}
+REACH = {"quick": {"op:tail": 300, "op:insert": 300, "op:sort": 400, "op:unique": 300, "op:filter": 500, "op:mul": 200, "op:slice": 300, "chain>=3": 2000,
+                   "tail:n=0": 25, "insert:at-or-past-end": 60, "insert:negative": 60, "sort:none-present": 150, "len:0": 200}}
 
 OPS = ["modify_dep", "modify_if2", "modify2", "fill_after_inplace_key", "filter_pred", "filter_kv", "filter_out_pred", "filter_out_kv", "sort", "unique", "select", "unselect", "rename", "modify", "modify_if",
        "fill_missing_keys", "fill_missing_keys_all", "append", "extend", "insert", "add", "mul", "reverse", "head", "tail", "slice", "copy", "drop_na", "extend_self", "add_self", "rmul", "setitem"]
